@@ -117,10 +117,9 @@ class Ctx:
         self._n = 0
 
     def fresh_dir(self):
-        self._n += 1
-        d = os.path.join(self.scratch, "c%d" % self._n)
-        os.makedirs(d)
-        return d
+        import tempfile
+
+        return tempfile.mkdtemp(prefix="c", dir=self.scratch)
 
 
 def shard_seed(seed, check, i):
